@@ -60,12 +60,17 @@ Eval(t, x) ==
     [] t.n = "S" -> Ok(<<"L" \o ToString(t.i)>>, 0 - 1000 - t.i)   \* a str-valued leaf: no method accepts it
     [] t.n = "X" -> Ok(<<>>, x)
     [] t.n = "C" ->
-         LET a == Eval(t.arg, x) IN
-         IF a.err # 0 THEN a
-         ELSE LET k == IF IsNull(t.kw) THEN Ok(<<>>, 0) ELSE Eval(t.kw, x) IN
-              IF k.err # 0 THEN [ev |-> a.ev \o k.ev, val |-> 0, err |-> k.err]
-              ELSE IF a.val <= 0 - 1000 THEN [ev |-> a.ev \o k.ev, val |-> 0, err |-> 77]   \* "No method" raised at the call site
-              ELSE Ok(a.ev \o k.ev \o <<(IF t.site = "N" THEN "N" ELSE "R") \o ToString(a.val) \o "k" \o ToString(k.val)>>,
+         \* kwfirst: the call site is written site(k=<kw>, x=<arg>) - Python evaluates the arguments in the order written
+         LET kf == "kwfirst" \in DOMAIN t /\ t.kwfirst
+             a == Eval(t.arg, x)
+             k == IF IsNull(t.kw) THEN Ok(<<>>, 0) ELSE Eval(t.kw, x)
+             f == IF kf THEN k ELSE a
+             s == IF kf THEN a ELSE k
+         IN
+         IF f.err # 0 THEN f
+         ELSE IF s.err # 0 THEN [ev |-> f.ev \o s.ev, val |-> 0, err |-> s.err]
+              ELSE IF a.val <= 0 - 1000 THEN [ev |-> f.ev \o s.ev, val |-> 0, err |-> 77]   \* "No method" raised at the call site
+              ELSE Ok(f.ev \o s.ev \o <<(IF t.site = "N" THEN "N" ELSE "R") \o ToString(a.val) \o "k" \o ToString(k.val)>>,
                       a.val + (IF t.site = "N" THEN 100 ELSE 10) + 3 * k.val)
     [] t.n = "CX" ->
          \* site(x, k=(x := <val>)) on the method's own parameter x (= 5): the positional is read first
@@ -96,11 +101,14 @@ Eval(t, x) ==
          LET it == EvalItems(t.items, 1, x, [ev |-> <<>>, vals |-> <<>>, err |-> 0]) IN
          IF it.err # 0 THEN [ev |-> it.ev, val |-> 0, err |-> it.err]
          ELSE EvalLoop(t.elt, t.cond, it.vals, 1, it.ev, 0)
-    [] t.n \in {"Lam", "Def"} ->
+    \* Cls: the body is a method of a class defined inside the overloaded method (class K: run = lambda self, x_: <body>)
+    [] t.n \in {"Lam", "Def", "Cls"} ->
          LET a == Eval(t.arg, x) IN
          IF a.err # 0 THEN a
          ELSE LET b == Eval(t.body, a.val) IN [ev |-> a.ev \o b.ev, val |-> b.val, err |-> b.err]
-    [] t.n \in {"F", "W"} -> Eval(t.a, x)
+    \* Sh: <a> goes through a nested def / lambda whose own *parameters* are called recurse and like the overloaded
+    \* function; they are bound to the identity, so the value and the events are those of <a>
+    [] t.n \in {"F", "W", "Sh"} -> Eval(t.a, x)
     [] OTHER -> [ev |-> <<"?">>, val |-> 0, err |-> 0 - 1]
 
 (* Python forbids assignment expressions inside a comprehension iterable *)
@@ -112,8 +120,8 @@ NoWalrus(t) ==
     [] t.n \in {"Add", "And", "Or"} -> NoWalrus(t.a) /\ NoWalrus(t.b)
     [] t.n = "If" -> NoWalrus(t.c) /\ NoWalrus(t.a) /\ NoWalrus(t.b)
     [] t.n = "LC" -> (\A j \in DOMAIN t.items : NoWalrus(t.items[j])) /\ NoWalrus(t.elt) /\ NoWalrus(t.cond)
-    [] t.n \in {"Lam", "Def"} -> NoWalrus(t.arg)    \* a lambda / def body is its own scope
-    [] t.n = "F" -> NoWalrus(t.a)
+    [] t.n \in {"Lam", "Def", "Cls"} -> NoWalrus(t.arg)    \* a lambda / def body is its own scope
+    [] t.n \in {"F", "Sh"} -> NoWalrus(t.a)
     [] OTHER -> FALSE
 
 (* grammar membership: X only under a binder; bounded nesting *)
@@ -130,7 +138,7 @@ WellFormed(t, bound, d) ==
        [] t.n = "LC" -> /\ \A j \in DOMAIN t.items : WellFormed(t.items[j], bound, d - 1) /\ NoWalrus(t.items[j])
                         /\ WellFormed(t.elt, TRUE, d - 1)
                         /\ (IsNull(t.cond) \/ WellFormed(t.cond, TRUE, d - 1))
-       [] t.n \in {"Lam", "Def"} -> WellFormed(t.arg, bound, d - 1) /\ WellFormed(t.body, TRUE, d - 1)
-       [] t.n \in {"F", "W"} -> WellFormed(t.a, bound, d - 1)
+       [] t.n \in {"Lam", "Def", "Cls"} -> WellFormed(t.arg, bound, d - 1) /\ WellFormed(t.body, TRUE, d - 1)
+       [] t.n \in {"F", "W", "Sh"} -> WellFormed(t.a, bound, d - 1)
        [] OTHER -> FALSE
 =============================================================================
